@@ -107,8 +107,16 @@ GenDocSeq == IF Tier = "thorough"
                   IN  [i \in 1..Len(S) |-> [prolog |-> <<>>, nodes |-> BuildKids(S[i], 1, <<RootN, El(1, "a")>>)]]
              ELSE <<>>
 
-\* D7 is used by the family "ctx" only, D8 by the family "ns" only, the generated ones by "g1"
-DocSeq == IF Tier = "tiny" THEN <<D1>> ELSE <<D1, D2, D3, D4, D5, D6, D7, D8>> \o GenDocSeq
+\* element and attribute names that begin with (or are) an axis name, a node type or an operator name
+\* <order self="1" div="2"><text>1</text><div>4<selfish/><a-b>3</a-b><div>2</div></div><or/><and>1</and><mod/><textual/><andy/><orb/></order>
+D9 == [prolog |-> <<>>, nodes |-> <<
+  RootN, El(1, "order"), At(2, "self", "1"), At(2, "div", "2"), El(2, "text"), Tx(5, "1"), El(2, "div"), TxC(7, <<52>>),
+  El(7, "selfish"), El(7, "a-b"), TxC(10, <<51>>), El(7, "div"), Tx(12, "2"), El(2, "or"), El(2, "and"), Tx(15, "1"),
+  El(2, "mod"), El(2, "textual"), El(2, "andy"), El(2, "orb") >>]
+
+\* D7 is used by the family "ctx" only, D8 by "ns", D9 by "kw", the generated ones by "g1"
+DocSeq == IF Tier = "tiny" THEN <<D1>> ELSE <<D1, D2, D3, D4, D5, D6, D7, D8, D9>> \o GenDocSeq
+NFixed == 9
 \* caller-side namespace bindings (prefixes of the expression context; note the swapped ones)
 BindSeq == << <<>>,
               << <<Cp("r"), Cp("u1")>> >>,
@@ -208,7 +216,7 @@ Atoms == { NumL(1), NumL(2), NumL(3) }
 ArOps == {"or", "and", "=", "!=", "<", "<=", ">", ">=", "+", "-", "*", "div", "mod"}
 
 Families == IF Tier = "tiny" THEN {"p1", "un", "fl"}
-            ELSE {"p1", "p2", "un", "fl", "cmp", "fn", "ctx", "ns", "ar", "ar3"}
+            ELSE {"p1", "p2", "un", "fl", "cmp", "fn", "ctx", "ns", "kw", "ar", "ar3"}
 
 \* the quick tier uses fewer documents for the operand-pool families
 DocsFor(f) == IF Tier = "quick" /\ f = "cmp" THEN {1, 2, 6}
@@ -217,11 +225,12 @@ DocsFor(f) == IF Tier = "quick" /\ f = "cmp" THEN {1, 2, 6}
 Seeds ==
   { [fam |-> "p1", d |-> k, a |-> ax, b |-> 1] : k \in MainDocs, ax \in UsedAxes }
   \cup (IF "p2" \in Families THEN { [fam |-> "p2", d |-> k, a |-> ax, b |-> 1] : k \in MainDocs, ax \in UsedAxes } ELSE {})
-  \cup UNION { { [fam |-> f, d |-> k, a |-> "-", b |-> 1] : k \in DocsFor(f) } : f \in Families \ {"p1", "p2", "ar", "ar3", "ctx", "ns"} }
+  \cup UNION { { [fam |-> f, d |-> k, a |-> "-", b |-> 1] : k \in DocsFor(f) } : f \in Families \ {"p1", "p2", "ar", "ar3", "ctx", "ns", "kw"} }
   \cup (IF "ctx" \in Families THEN { [fam |-> "ctx", d |-> k, a |-> "-", b |-> 1] : k \in 1..7 } ELSE {})
   \cup (IF "ns" \in Families THEN { [fam |-> "ns", d |-> 8, a |-> "-", b |-> k] : k \in 1..Len(BindSeq) } ELSE {})
   \cup (IF "ar" \in Families THEN { [fam |-> f, d |-> 1, a |-> o, b |-> 1] : f \in {"ar", "ar3"}, o \in ArOps } ELSE {})
-  \cup { [fam |-> "g1", d |-> 8 + k, a |-> ax, b |-> 1] : k \in 1..Len(GenDocSeq), ax \in UsedAxes }
+  \cup { [fam |-> "g1", d |-> NFixed + k, a |-> ax, b |-> 1] : k \in 1..Len(GenDocSeq), ax \in UsedAxes }
+  \cup (IF "kw" \in Families THEN { [fam |-> "kw", d |-> 9, a |-> "-", b |-> 1] } ELSE {})
 
 Expand(s) ==
   CASE s.fam = "p1" -> { Rel(<<st>>) : st \in StepsOfAxis(s.a) } \cup { AbsP(<<Dos, st>>) : st \in StepsOfAxis(s.a) }
@@ -257,6 +266,19 @@ Expand(s) ==
              \cup { AbsP(<<Dos, Step(ax, TypeT("node"), <<pr>>)>>) : ax \in {"child", "attribute"}, pr \in P }
              \cup { Fn1(f, AbsP(<<Dos, Step(ax, t, <<>>)>>)) : f \in {"name", "local-name", "namespace-uri", "count"},
                                                              ax \in {"child", "attribute"}, t \in T }
+    [] s.fam = "kw" ->
+         LET KwNames == {"order", "self", "text", "div", "selfish", "a-b", "or", "and", "mod", "textual", "andy", "orb", "comment", "node"}
+             E(n) == AbsP(<<Dos, Ch(n)>>)
+             R(n) == Rel(<<Ch("order"), Ch(n)>>)
+         IN  { E(n) : n \in KwNames } \cup { R(n) : n \in KwNames } \cup { Rel(<<Ch(n)>>) : n \in KwNames }
+             \cup { AbsP(<<Dos, AtS(n)>>) : n \in {"self", "div", "or", "text"} }
+             \cup { AbsP(<<Dos, Step(ax, NameT(n), <<>>)>>) : ax \in {"self", "descendant", "following-sibling", "parent"}, n \in {"div", "text", "or", "self", "order"} }
+             \cup { Bin(o, E(x), E(y)) : o \in {"div", "mod", "and", "or", "*", "-", "+", "=", "|"}, x \in {"div", "a-b", "or", "and", "mod", "text"}, y \in {"div", "and", "a-b"} }
+             \cup { Bin(o, R(x), NumL(2)) : o \in {"div", "mod", "and", "or", "*", "-"}, x \in KwNames }
+             \cup { Bin(o, NumL(2), R(x)) : o \in {"div", "mod", "and", "or", "*", "-"}, x \in KwNames }
+             \cup { AbsP(<<Dos, Step("child", AnyT, <<Rel(<<Ch(n)>>)>>)>>) : n \in KwNames }
+             \cup { AbsP(<<Dos, Step("child", AnyT, <<Bin(o, Rel(<<Ch(x)>>), Rel(<<Ch(y)>>))>>)>>) : o \in {"or", "and", "div"}, x \in {"div", "or", "text"}, y \in {"and", "selfish", "a-b"} }
+             \cup { Fn1("count", E(n)) : n \in KwNames } \cup { NegE(R(n)) : n \in {"div", "a-b", "text"} }
     [] s.fam = "ar" -> { Bin(s.a, Bin(o, x, y), z) : o \in ArOps, x \in Atoms, y \in {NumL(2)}, z \in Atoms }
                        \cup { Bin(s.a, x, Bin(o, y, z)) : o \in ArOps, x \in Atoms, y \in {NumL(2)}, z \in Atoms }
                        \cup { Bin(s.a, NegE(x), y) : x \in Atoms, y \in Atoms } \cup { NegE(Bin(s.a, x, y)) : x \in Atoms, y \in Atoms }
